@@ -319,4 +319,24 @@ theorem C14_hpack_size_update_signalled_pf (ops : List HpOp) :
     have hv : v = (hpRun true Hp.init ops).encSize := by simpa [HpInv, hp] using hi
     simp [hpStep, hp, hv]
 
+/-! ### DATA on a stream sozu has already closed, reset or refused -/
+
+theorem rrun_append (r : Recv) (a b : List ROp) : rrun r (a ++ b) = rrun (rrun r a) b := by
+  simp [rrun, List.foldl_append]
+
+theorem wu_replenish_closed_stream (icw ms : Nat) (ops : List ROp) (sid len : Nat) (es : Bool) :
+    let r := rrun (Recv.new icw ms) ops
+    let r' := rstep r (.data sid len false es)
+    r'.consumed = r.consumed + len ∧
+    r'.consumed = r'.announced + sumK r'.pending 0 + r'.since + r'.lost ∧ r'.since ≤ icw / 2 := by
+  have h := C14_wu_replenish_ledger_pf icw ms (ops ++ [.data sid len false es])
+  simp only [rrun_append] at h
+  refine ⟨?_, h⟩
+  simp only [rstep, recvData, Bool.false_and, Bool.false_eq_true, if_false]
+  split <;> simp [queueWu] <;> (try split) <;> (try split) <;> simp
+
+/-- the variant in which such a payload is skipped without going through
+    `handle_data_frame`: the peer has used the window, sozu has not counted it -/
+def discardData (r : Recv) (len : Nat) : Recv := { r with consumed := r.consumed + len }
+
 end Sozu.H2Flow
